@@ -255,11 +255,47 @@ pub fn run_generic(id: &str, tier: Tier) -> i32 {
         ];
         run_plans("C10", seed, &plans, &mut out.stats, &mut out.violations);
     }
+    let fuzz_inconclusive = add_fuzz(id, tier, seed, &mut out);
     write_evidence(id, tier, seed, spec.rule, &spec.assumptions, &out, t0.elapsed().as_secs_f64(), false);
-    finish(id, &out)
+    let code = finish(id, &out);
+    if code == 0 && fuzz_inconclusive {
+        println!("INCONCLUSIVE: the coverage-guided campaign did not complete");
+        return 2;
+    }
+    code
 }
 
 pub fn replay(path: &str) -> i32 {
+    // raw libFuzzer artifacts are named fuzz-<target>-<property>-<kind>-<hash>
+    let base = path.rsplit('/').next().unwrap_or("");
+    if let Some(rest) = base.strip_prefix("fuzz-") {
+        let mut it = rest.split('-');
+        if let (Some(target), Some(id)) = (it.next(), it.next()) {
+            let data = match std::fs::read(path) {
+                Ok(d) => d,
+                Err(e) => {
+                    eprintln!("cannot read {}: {}", path, e);
+                    return 2;
+                }
+            };
+            return match crate::exec::guarded(u64::MAX, || crate::fuzzdec::replay_bytes(target, id, &data)) {
+                Ok(Ok(what)) => {
+                    println!("replay {}: property {} holds on the decoded input {}", path, id, what.chars().take(300).collect::<String>());
+                    0
+                }
+                Ok(Err((pid, f))) => {
+                    println!("VIOLATION property={} replay={}", pid, path);
+                    println!("  clause: {}\n  detail: {}", f.clause, f.detail);
+                    1
+                }
+                Err(p) => {
+                    println!("VIOLATION property={} replay={}", id, path);
+                    println!("  clause: panic\n  detail: panicked at {}:{}: {}", p.file, p.line, p.message);
+                    1
+                }
+            };
+        }
+    }
     let s = match std::fs::read_to_string(path) {
         Ok(s) => s,
         Err(e) => {
@@ -274,6 +310,7 @@ pub fn replay(path: &str) -> i32 {
             return 2;
         }
     };
+    let _ = &v;
     match v.get("kind").and_then(|k| k.as_str()) {
         Some("splay-history") => {
             let h = match v.get("history").and_then(|h| h.as_str()).and_then(crate::props::splay::history_from_text) {
@@ -490,9 +527,15 @@ pub fn run_c17(tier: Tier) -> i32 {
         let plans = vec![mk("short-histories", tier.pick(48_000, 2_000_000), 40), mk("long-histories", tier.pick(12_000, 400_000), 400)];
         run_plans("C17", seed, &plans, &mut stats, &mut violations);
     }
-    let out = Outcome { violations, known_lines: vec![], stats, extra };
+    let mut out = Outcome { violations, known_lines: vec![], stats, extra };
+    let fuzz_inconclusive = add_fuzz("C17", tier, seed, &mut out);
     write_evidence("C17", tier, seed, rule, &["BTreeMap of the standard library is the reference model", "comparators are consistent total orders (natural, reversed, (k mod 7, k))", "the Debug rendering of SplayTree is used to read the tree shape (in-order keys, height)"], &out, t0.elapsed().as_secs_f64(), false);
-    finish("C17", &out)
+    let code = finish("C17", &out);
+    if code == 0 && fuzz_inconclusive {
+        println!("INCONCLUSIVE: the coverage-guided campaign did not complete");
+        return 2;
+    }
+    code
 }
 
 // ---------------------------------------------------------------------------------------------
@@ -730,9 +773,15 @@ pub fn run_c16(tier: Tier) -> i32 {
         ];
         run_plans("C16", seed, &plans, &mut stats, &mut violations);
     }
-    let out = Outcome { violations, known_lines, stats, extra: json!({}) };
+    let mut out = Outcome { violations, known_lines, stats, extra: json!({}) };
+    let fuzz_inconclusive = add_fuzz("C16", tier, seed, &mut out);
     write_evidence("C16", tier, seed, rule, &["integer family: all intermediate products of the library are exact below 2^25, so the classification clauses are demanded exactly", "float family: only containment in both bounding boxes, common split point, link/flag clauses, and detection with a margin of 1e-9*magnitude (f32: 1e-4) are demanded", "float family: when the step returns 2 or 3 (overlap arm) although the segments are not exactly collinear, the outcome is counted under known_signature_hits_N3 (recorded finding) and not judged", "split points that differ with the exact shape of the recorded finding N2 (equal y, x one ulp apart, smaller x = left x of the bumped segment, y below it) are counted under known_signature_hits_N2 and not reported"], &out, t0.elapsed().as_secs_f64(), false);
-    finish("C16", &out)
+    let code = finish("C16", &out);
+    if code == 0 && fuzz_inconclusive {
+        println!("INCONCLUSIVE: the coverage-guided campaign did not complete");
+        return 2;
+    }
+    code
 }
 
 // ---------------------------------------------------------------------------------------------
@@ -920,4 +969,93 @@ pub fn run_c03(tier: Tier, part_out: Option<&str>) -> i32 {
         return 2;
     }
     code
+}
+
+// ---------------------------------------------------------------------------------------------
+// coverage-guided campaigns (thorough tiers): libFuzzer through cargo-fuzz, oracle inside the target
+
+pub struct FuzzReport {
+    pub json: Value,
+    pub crash: Option<(String, String)>,
+    pub inconclusive: Option<String>,
+}
+
+pub fn fuzz_campaign(id: &str, runs: u64, seed: u64) -> Option<FuzzReport> {
+    let target = crate::fuzzdec::target_for(id)?;
+    let root = verif_root();
+    let corpus = format!("{}/fuzz/corpus-run/{}-{}", root, target, id);
+    let _ = std::fs::remove_dir_all(&corpus);
+    let _ = std::fs::create_dir_all(&corpus);
+    // seed corpus: committed golden inputs for the target, if any
+    if let Ok(rd) = std::fs::read_dir(format!("{}/corpus/fuzz/{}", root, target)) {
+        for e in rd.flatten() {
+            let _ = std::fs::copy(e.path(), format!("{}/{}", corpus, e.file_name().to_string_lossy()));
+        }
+    }
+    let _ = std::fs::create_dir_all(format!("{}/replays", root));
+    let prefix = format!("{}/replays/fuzz-{}-{}-", root, target, id);
+    let t0 = Instant::now();
+    let out = std::process::Command::new("cargo")
+        .current_dir(format!("{}/harness", root))
+        .env("CARGO_NET_OFFLINE", "true")
+        .env("VERIF_FUZZ_PROP", id)
+        .args(["+nightly", "fuzz", "run", "--fuzz-dir", &format!("{}/fuzz", root), target, &corpus, "--"])
+        .args([format!("-runs={}", runs), format!("-seed={}", (seed % 0xffff_fff0) + 1), "-len_control=0".to_string(), "-max_len=512".to_string(), format!("-artifact_prefix={}", prefix), "-print_final_stats=1".to_string()])
+        .output();
+    let out = match out {
+        Ok(o) => o,
+        Err(e) => return Some(FuzzReport { json: json!({"target": target, "error": e.to_string()}), crash: None, inconclusive: Some(format!("cannot start cargo fuzz: {}", e)) }),
+    };
+    let err = String::from_utf8_lossy(&out.stderr).to_string();
+    let grab = |key: &str| -> Option<u64> { err.lines().rev().find_map(|l| l.split(key).nth(1).and_then(|r| r.trim().split_whitespace().next()).and_then(|v| v.parse().ok())) };
+    let execs = grab("stat::number_of_executed_units:");
+    let cov = err.lines().rev().find_map(|l| l.split("cov: ").nth(1).and_then(|r| r.split_whitespace().next()).and_then(|v| v.parse::<u64>().ok()));
+    let corp = err.lines().rev().find_map(|l| l.split("corp: ").nth(1).and_then(|r| r.split('/').next()).and_then(|v| v.trim().parse::<u64>().ok()));
+    let mut json = json!({"engine": "libFuzzer via cargo-fuzz (ASan)", "target": target, "selected_property": id, "requested_runs": runs, "executions": execs, "coverage_edges": cov, "corpus_units": corp, "seconds": t0.elapsed().as_secs_f64()});
+    let _ = std::fs::remove_dir_all(&corpus);
+    if out.status.success() {
+        return Some(FuzzReport { json, crash: None, inconclusive: None });
+    }
+    let artifact = err.lines().find_map(|l| l.split("Test unit written to ").nth(1).map(|s| s.trim().to_string()));
+    let msg = err.lines().find(|l| l.contains("VERIF-FUZZ-VIOLATION")).map(|s| s.chars().take(1200).collect::<String>());
+    match (artifact, msg) {
+        (Some(a), Some(m)) => {
+            json["crash"] = json!(m);
+            Some(FuzzReport { json, crash: Some((a, m)), inconclusive: None })
+        }
+        (a, _) => {
+            let tail: String = err.lines().rev().take(6).collect::<Vec<_>>().into_iter().rev().collect::<Vec<_>>().join(" | ");
+            json["error_tail"] = json!(tail);
+            Some(FuzzReport { json, crash: None, inconclusive: Some(format!("fuzz run failed without an oracle violation (artifact {:?}): {}", a, tail)) })
+        }
+    }
+}
+
+/// run the campaign for a thorough tier and fold it into the outcome; returns true if inconclusive
+pub fn add_fuzz(id: &str, tier: Tier, seed: u64, out: &mut Outcome) -> bool {
+    if tier != Tier::Thorough || !out.violations.is_empty() || std::env::var("VERIF_NO_FUZZ").is_ok() {
+        return false;
+    }
+    let runs: u64 = std::env::var("VERIF_FUZZ_RUNS").ok().and_then(|s| s.parse().ok()).unwrap_or(match id {
+        "C16" | "C17" => 2_000_000,
+        _ => 300_000,
+    });
+    match fuzz_campaign(id, runs, seed) {
+        None => false,
+        Some(rep) => {
+            if let Some(n) = rep.json["executions"].as_u64() {
+                out.stats.evaluations += n;
+                *out.stats.counters.entry("fuzz_executions".into()).or_default() += n;
+            }
+            out.extra["fuzz"] = rep.json;
+            if let Some((artifact, msg)) = rep.crash {
+                out.violations.push(Violation { replay: artifact, clause: "fuzz-oracle-violation".into(), detail: msg });
+            }
+            if let Some(why) = rep.inconclusive {
+                eprintln!("fuzz campaign inconclusive: {}", why);
+                return true;
+            }
+            false
+        }
+    }
 }
